@@ -221,7 +221,11 @@ func (r *Run) Violation(sig, what string, replay any) {
 		dir = "/verif"
 	}
 	h := sha256.Sum256([]byte(sig))
-	path := filepath.Join(dir, "replays", r.Prop, hex.EncodeToString(h[:4])+".json")
+	rdir := filepath.Join(dir, "replays")
+	if v := os.Getenv("VERIF_REPLAYS"); v != "" {
+		rdir = v
+	}
+	path := filepath.Join(rdir, r.Prop, hex.EncodeToString(h[:4])+".json")
 	_ = os.MkdirAll(filepath.Dir(path), 0o755)
 	b, _ := json.MarshalIndent(map[string]any{"property": r.Prop, "signature": sig, "what": what, "case": replay,
 		"part": os.Getenv("VERIF_PART")}, "", " ")
